@@ -42,6 +42,7 @@ inductive Kind
   | struct | inline                        -- ClassReference / StructureReference (`Shape.keyed`)
   | anyOf | oneOf | allOf | notF           -- multi-field wrappers (`Shape.wrap`)
   | any                                    -- Anything / untyped content / additional properties
+  | owner                                  -- the defensive deep copy of an immutable owner (ImmutableStructure / immutable=True field)
   | document | mapping | names | required | enumValues | default | schema | fieldState   -- class-level / document-level sites
   deriving DecidableEq, Repr, Inhabited
 
@@ -78,7 +79,7 @@ def OpK.isInput : OpK → Bool
 
 /-- sites whose content has no declared type: a copy there is a generic deep copy -/
 def Kind.isLeafSite : Kind → Bool
-  | .any | .document | .mapping | .names | .required | .enumValues | .default | .schema | .fieldState => true
+  | .any | .owner | .document | .mapping | .names | .required | .enumValues | .default | .schema | .fieldState => true
   | _ => false
 
 /-- behaviour of the code at a node, read off a table row -/
@@ -140,13 +141,23 @@ def Held (h : Heap) (K : List Nat) (a : Nat) : Prop := ∃ r, r ∈ K ∧ Reach 
 
 /-! ## declared types -/
 
+/-- which option of a multi-field wrapper takes the value: the first one the value fits (`AnyOf.__set__`,
+    `deserialize_multifield_wrapper`, `serialize_multifield_wrapper`), or a fixed one whatever the value is
+    (`AnyOf.serialize` → its last non-None option, `AllOf.serialize` → its first option) -/
+inductive Pick
+  | firstFit
+  | fixed (i : Nat)
+  deriving DecidableEq, Repr, Inhabited
+
 inductive Shape
   | scalar (c : Cat)                                   -- Integer, String, Boolean, Enum, NoneField …
   | any                                                -- an `Anything` field
   | untyped                                            -- implicit: elements of an untyped collection, undeclared keys
   | coll (k : Kind) (item : Shape)                     -- Array[T], Deque[T], Set[T], Tuple[T], Map[K, V]
   | keyed (k : Kind) (fields : List (String × Shape))  -- structure / positional items, by key
-  | wrap (k : Kind) (inner : Shape)                    -- AnyOf / OneOf / AllOf / NotField (the matching option)
+  | wrap (k : Kind) (inner : Shape)                    -- a wrapper with one inner declaration (NotField; class-level sites)
+  | wrapN (k : Kind) (pick : Pick) (opts : List Shape) -- AnyOf / OneOf / AllOf with ALL their options: the value decides
+  | owned (inner : Shape)                              -- a field of an immutable owner: defensive deep copy, then the field
   deriving Repr, Inhabited
 
 def Shape.cat : Shape → Cat
@@ -159,6 +170,8 @@ def Shape.cat : Shape → Cat
   | .keyed .inline _ => .inline
   | .keyed _ _ => .coll
   | .wrap _ _ => .wrap
+  | .wrapN _ _ _ => .wrap
+  | .owned s => s.cat
 
 /-! ## transformers -/
 
@@ -258,6 +271,87 @@ def fieldStep (name : String) (f : Heap → Item → R Item)
       | (h2, none) => (h2, none)
       | (h2, some r) => (h2, some ((name, it') :: r))
 
+/-! ### which option of a multi-field wrapper a value fits (by its shape: Python type of the value) -/
+
+/-- atoms carry the Python class of the scalar: 0 None, 1 bool, 2 int, 3 float, 4 str, 5 anything else -/
+def atomFits (c : Cat) : Item → Bool
+  | .ref _ => false
+  | .atom v => match c with
+    | .number => v == 2 || v == 3
+    | .string => v == 4
+    | _ => true
+
+/-- Python container classes a collection / structure declaration takes (`isinstance` tests of the fields) -/
+def tagFits (k : Kind) (t : String) : Bool :=
+  match k with
+  | .array | .deque | .arrayPos | .dequePos => t == "list" || t == "deque" || t == "wlist" || t == "wdeque"
+  | .set | .immSet => t == "set" || t == "frozenset" || t == "list" || t == "wlist"
+  | .tuple | .tuplePos => t == "tuple" || t == "list" || t == "wlist"
+  | .map => t == "dict" || t == "wdict"
+  | .struct | .inline | .root => t == "inst" || t == "iinst" || t == "dict" || t == "wdict"
+  | _ => true
+
+def refFits (k : Kind) (h : Heap) : Item → Bool
+  | .atom _ => false
+  | .ref a => tagFits k (h.cells a).tag
+
+mutual
+def fits : Shape → Heap → Item → Bool
+  | .scalar c, _, i => atomFits c i
+  | .any, _, _ => true
+  | .untyped, _, _ => true
+  | .coll k _, h, i => refFits k h i
+  | .keyed k _, h, i => refFits k h i
+  | .wrap _ _, _, _ => true
+  | .wrapN k _ opts, h, i => fitsOpts (k == .allOf) opts h i
+  | .owned s, h, i => fits s h i
+termination_by structural s => s
+/-- `all = false`: some option fits (AnyOf / OneOf); `all = true`: every option fits (AllOf) -/
+def fitsOpts (all : Bool) : List Shape → Heap → Item → Bool
+  | [], _, _ => all
+  | s :: rest, h, i => if all then fits s h i && fitsOpts all rest h i else fits s h i || fitsOpts all rest h i
+termination_by structural opts => opts
+end
+
+/-- index of the first option the value fits (`opts.length` if none does) -/
+def firstFitIdx (h : Heap) (i : Item) : List Shape → Nat
+  | [] => 0
+  | s :: rest => if fits s h i then 0 else firstFitIdx h i rest + 1
+
+/-- the option a wrapper hands the value to; an index past the end = no option takes it (generic fallback / raises) -/
+def pickIdx (p : Pick) (opts : List Shape) (h : Heap) (i : Item) : Nat :=
+  match p with
+  | .firstFit => firstFitIdx h i opts
+  | .fixed n => match opts[n]? with
+    | some s => if fits s h i then n else opts.length
+    | none => opts.length
+
+/-- one step through the option list: option 0 is the chosen one, otherwise look further -/
+def optStep (f : Heap → Item → R Item) (g : Nat → Heap → Item → R Item) : Nat → Heap → Item → R Item
+  | 0, h, i => f h i
+  | n + 1, h, i => g n h i
+
+/-- objects an immutable owner stores / hands out WITHOUT its defensive deep copy: scalars, the typed collection
+    wrappers (`ImmutableMixin`) and ImmutableStructure instances (the `isinstance` tuples of
+    `Structure.__setattr__`, `Field.__set__`, `Field.__get__`) -/
+def exemptTag (t : String) : Bool := t == "wlist" || t == "wdict" || t == "wdeque" || t == "iinst"
+
+def ownerExempt (h : Heap) : Item → Bool
+  | .atom _ => true
+  | .ref a => exemptTag (h.cells a).tag
+
+/-- a field of an immutable owner: unless the table says the owner does not copy (`alias`), a value that is not
+    exempt is deep-copied first and the field (`f`) only ever sees the copy -/
+def nodeOwned (m : Mode) (fuel : Nat) (f : Heap → Item → R Item) (h : Heap) (i : Item) : R Item :=
+  match m with
+  | .error => (h, none)
+  | .alias => f h i
+  | _ =>
+    if ownerExempt h i then f h i
+    else match deepCopy fuel h i with
+      | (h1, none) => (h1, none)
+      | (h1, some c) => f h1 c
+
 mutual
 /-- the type-directed walk shared by every operation of the statement -/
 def transfer (M : Kind → Cat → Mode) (fuel : Nat) : Shape → Heap → Item → R Item
@@ -267,7 +361,16 @@ def transfer (M : Kind → Cat → Mode) (fuel : Nat) : Shape → Heap → Item 
   | .coll k s, h, i => nodeColl (M k s.cat) fuel (fun h' i' => transfer M fuel s h' i') h i
   | .keyed k fs, h, i => nodeRec (M k .none) fuel (fun h' its => transferFields M fuel fs h' its) h i
   | .wrap k s, h, i => nodeWrap (M k s.cat) fuel (fun h' i' => transfer M fuel s h' i') h i
+  | .wrapN k p opts, h, i => transferOpts M fuel k opts (pickIdx p opts h i) h i
+  | .owned s, h, i => nodeOwned (M .owner .none) fuel (fun h' i' => transfer M fuel s h' i') h i
 termination_by structural s => s
+/-- walk to the chosen option; past the end: no option takes the value — the wrapper's generic path (site `(k, untyped)`) -/
+def transferOpts (M : Kind → Cat → Mode) (fuel : Nat) (k : Kind) : List Shape → Nat → Heap → Item → R Item
+  | [], _, h, i => leafAny (M k .untyped) fuel h i
+  | s :: rest, n, h, i =>
+    optStep (nodeWrap (M k s.cat) fuel (fun h' i' => transfer M fuel s h' i'))
+      (fun n' h' i' => transferOpts M fuel k rest n' h' i') n h i
+termination_by structural opts => opts
 def transferFields (M : Kind → Cat → Mode) (fuel : Nat) :
     List (String × Shape) → Heap → List (String × Item) → R (List (String × Item))
   | [], h, _ => (h, some [])
@@ -293,7 +396,14 @@ def safeShape (M : Kind → Cat → Mode) : Shape → Bool
   | .coll k s => (M k s.cat).copies && safeShape M s
   | .keyed k fs => (M k .none).copies && safeFields M fs
   | .wrap k s => (M k s.cat).copies && safeShape M s
+  | .wrapN k _ opts => (M k .untyped).copies && safeOpts M k opts
+  | .owned s => safeShape M s
 termination_by structural s => s
+/-- whichever option takes the value, it copies -/
+def safeOpts (M : Kind → Cat → Mode) (k : Kind) : List Shape → Bool
+  | [] => true
+  | s :: rest => (M k s.cat).copies && safeShape M s && safeOpts M k rest
+termination_by structural opts => opts
 def safeFields (M : Kind → Cat → Mode) : List (String × Shape) → Bool
   | [] => true
   | (_, s) :: rest => safeShape M s && safeFields M rest
@@ -309,7 +419,13 @@ def sitesOf : Shape → List (Kind × Cat)
   | .coll k s => (k, s.cat) :: sitesOf s
   | .keyed k fs => (k, .none) :: sitesOfFields fs
   | .wrap k s => (k, s.cat) :: sitesOf s
+  | .wrapN k _ opts => (k, .untyped) :: sitesOfOpts k opts
+  | .owned s => sitesOf s
 termination_by structural s => s
+def sitesOfOpts (k : Kind) : List Shape → List (Kind × Cat)
+  | [] => []
+  | s :: rest => (k, s.cat) :: (sitesOf s ++ sitesOfOpts k rest)
+termination_by structural opts => opts
 def sitesOfFields : List (String × Shape) → List (Kind × Cat)
   | [] => []
   | (_, s) :: rest => sitesOf s ++ sitesOfFields rest
